@@ -189,13 +189,17 @@ def correspond(ctx, schema, case, base, cfgs):
     for where, iv in L.iter_defaults(schema):
         if iv.has_default_value and not where.startswith("__"):
             try:
-                want = print_ast(ast_node_from_value(iv.default_value, iv.type))
+                try:
+                    # the form introspection reports (fix I11): strings stay strings at every depth
+                    want = print_ast(ast_node_from_value(iv.default_value, iv.type, numeric_strings=False))
+                except TypeError:
+                    want = print_ast(ast_node_from_value(iv.default_value, iv.type))
             except Exception as e:  # noqa
                 want = None
             lits.append((where, iv, want))
     from canon_schema import ty_of
     ans2 = ctx.driver.ask([{"op": "readLit", "text": t} for t in texts] +
-                          [{"op": "printLitOf", "schema": dump, "type": ty_of(iv.type), "value": L.canon_value_ordered(iv.default_value)}
+                          [{"op": "printLitOf", "strict": True, "schema": dump, "type": ty_of(iv.type), "value": L.canon_value_ordered(iv.default_value)}
                            for _, iv, _ in lits])
     for t, a in zip(texts, ans2):
         ctx.count()
